@@ -46,10 +46,12 @@ pub fn run(run: &'static Run) {
     let thorough = !run.quick();
     let schemes: Vec<&str> = vec!["ssh://", "git://", "http://", "https://", "file://", "foo://", "SSH://", "ssh+git://"];
     let mut users: Vec<&str> = vec!["", "u@", "u%40@", "-u@", "u:pw@", "u:@", ":pw@", "@"];
+    let first_percent_user = users.len();
     // percent-escapes of the userinfo delimiters (and of '%' itself, and a literal '%') in user and password
     users.extend([
         "a%2Fb@", "dom%2Fu@", "%3A@", "u%3Av@", "u%25@", "u%2540@", "u%@", "%40@", "%2F:%3A@", "u:%2F@", "u:to%2Fk%3Aen@", "u:%3Apw@", "u:p%40w@", "u:100%2540@", "u:%25@", "u:p%w@", "a%2Fb:c%40d@",
     ]);
+    let end_percent_user = users.len();
     let mut hosts: Vec<&str> = vec!["h", "[::1]", "-h", "", "H.example", "h."];
     // every scheme's default port (ssh 22, git 9418, http 80, https 443) with both neighbours, the extremes, and an empty port
     let mut ports: Vec<&str> = vec!["", ":0", ":21", ":22", ":23", ":79", ":80", ":81", ":442", ":443", ":444", ":9417", ":9418", ":9419", ":65535", ":"];
@@ -91,10 +93,16 @@ pub fn run(run: &'static Run) {
             }
             for (pre, post) in &wraps {
                 for scheme in schemes.iter().copied().chain(std::iter::once("")) {
-                    for user in &users {
+                    for (ui, user) in users.iter().enumerate() {
+                        let percent_user = (first_percent_user..end_percent_user).contains(&ui);
                         for host in &hosts {
-                            for port in &ports {
-                                for path in &paths {
+                            for (pti, port) in ports.iter().enumerate() {
+                                for (pi, path) in paths.iter().enumerate() {
+                                    // the percent-escaped userinfo forms do not interact with the line-terminator paths: the 17 plain paths for them,
+                                    // and in the quick tier the ports {none, 22}
+                                    if percent_user && (pi >= 17 || (!thorough && pti != 0 && pti != 3)) {
+                                        continue;
+                                    }
                                     let s = if scheme.is_empty() {
                                         // scp-like: [user@]host[:port-looking]:path
                                         format!("{pre}{user}{host}{port}:{path}{post}")
